@@ -114,6 +114,59 @@ SIGNATURES = {
 # Methods named `fit` on regressors vs gridders are told apart by the rules, not here.
 
 
+def canonical_args(names, args, kws):
+    """canonical argument form of a call whose positional parameter names are known: every argument that can be positional is
+    positional (maximal contiguous prefix of `names`), the rest are keywords in signature order.  Calls with *args/**kwargs that
+    could not be expanded are left as written.  Positional <-> keyword spelling therefore never changes a term."""
+    if names is None or any(a[0] == "star" for a in args) or any(k is None for k, _v in kws) or len(args) > len(names):
+        return tuple(args), tuple(kws)
+    m = dict(zip(names, args))
+    extra = []
+    for k, v in kws:
+        if k in names and k not in m:
+            m[k] = v
+        else:
+            extra.append((k, v))
+    pos = []
+    for n in names:
+        if n in m:
+            pos.append(m[n])
+        else:
+            break
+    rest = [(n, m[n]) for n in names[len(pos):] if n in m] + extra
+    return tuple(pos), tuple(rest)
+
+
+def package_signature(pkg, f, cls=None):
+    """positional parameter names for a callee term that resolves inside the package (function, class, self.method), else None"""
+    if f[0] == "glob":
+        q = f[1]
+        if q in pkg.functions and not pkg.functions[q].vararg:
+            return pkg.functions[q].call_params
+        if q in pkg.classes:
+            init = pkg.find_method(q, "__init__")
+            return init.call_params if init is not None and not init.vararg else None
+        return None
+    if f[0] == "attr" and f[1] == ("param", "self") and cls is not None:
+        m = pkg.find_method(cls.qual, f[2])
+        if m is not None and not m.vararg and not m.is_property:
+            return m.call_params
+        return None
+    if f[0] == "attr" and f[2] in ("fit", "filter", "predict", "score", "grid", "split", "jacobian"):
+        sigs = {tuple(fn.call_params) for fn in pkg.functions.values() if fn.cls is not None and fn.name == f[2] and not fn.vararg}
+        if sigs:
+            common = []
+            for tup in zip(*sorted(sigs, key=len)):
+                if len(set(tup)) == 1:
+                    common.append(tup[0])
+                else:
+                    break
+            longest = max(sigs, key=len)
+            if all(s_[: len(common)] == tuple(common) for s_ in sigs) and common:
+                return list(longest) if all(longest[: len(s_)] == s_ for s_ in sigs) else common
+    return None
+
+
 def positional_names(pkg, call):
     """names of the positional parameters of the callee of `call`, or None if unknown"""
     f = call[1]
